@@ -336,16 +336,17 @@ class Explorer:
         return res
 
     def explore(self, fn, prefixes=None, stop_when_queued=None):
-        """depth-first exploration; returns list of PathResult.
-        stop_when_queued: stop early (returning the remaining work in self.work) once that many
-        prefixes are queued - used to seed a process pool."""
+        """exploration of the path tree; returns list of PathResult.
+        Default order is depth-first.  With stop_when_queued the order is breadth-first (shallowest
+        prefix first) and exploration stops once that many prefixes are queued - the remaining work
+        (self.work) is then distributed over a process pool."""
         if prefixes is not None:
             self.work = [list(p) for p in prefixes]
         results = []
         while self.work:
             if stop_when_queued is not None and len(self.work) >= stop_when_queued:
                 break
-            prefix = self.work.pop()
+            prefix = self.work.pop(0) if stop_when_queued is not None else self.work.pop()
             if self.paths >= self.max_paths:
                 raise Unsupported("max paths %d reached" % self.max_paths)
             results.append(self.run_path(fn, prefix))
